@@ -298,9 +298,68 @@ def snap (w1 w4 : V2 K) (l : T2 (V2 K) (V2 K)) (t : K) : K :=
 def sOf (l : T2 (V2 K) (V2 K)) (q : V2 K) : K :=
   if |lineB l| > |lineA l| then (q.x - l.t0.x) / (l.t1.x - l.t0.x) else (q.y - l.t0.y) / (l.t1.y - l.t0.y)
 
+/-- one guarded Newton-Raphson step, written as the generated code writes it: taken only if it reduces the error -/
+def newtonStep (p : T4 K K K K) (t : K) : K :=
+  let value := ((p.t0 * t + p.t1) * t + p.t2) * t + p.t3
+  let derivative := ((3.0 : K) * p.t0 * t + (2.0 : K) * p.t1) * t + p.t2
+  let next_t := t - value / derivative
+  let next_value := ((p.t0 * next_t + p.t1) * next_t + p.t2) * next_t + p.t3
+  if decide (|next_value| < |value|) then next_t else t
+
+/-- the generated `polish_root` is four guarded Newton steps (none for the all-zero polynomial of a collinear line) -/
+theorem polish_unfold (p : T4 K K K K) (t : K) :
+    polish_root p t =
+      if (((decide (|p.t0| < (0.00000001 : K)) && decide (|p.t1| < (0.00000001 : K))) && decide (|p.t2| < (0.00000001 : K))) &&
+          decide (|p.t3| < (0.00000001 : K))) then t
+      else newtonStep p (newtonStep p (newtonStep p (newtonStep p t))) := by
+  unfold polish_root
+  split
+  · rename_i h; exact (if_pos (show _ = true from h)).symm
+  · rename_i h
+    have h' : ¬ ((((decide (|p.t0| < (0.00000001 : K)) && decide (|p.t1| < (0.00000001 : K))) && decide (|p.t2| < (0.00000001 : K))) &&
+          decide (|p.t3| < (0.00000001 : K))) = true) := h
+    rw [if_neg h']
+    extract_lets t0 v1 d1 n1 nv1 i1 s1 v2 d2 n2 nv2 i2 s2 v3 d3 n3 nv3 i3 s3 v4 d4 n4 nv4 i4 s4
+    have e1 : s1 = newtonStep p t := rfl
+    have e2 : s2 = newtonStep p s1 := rfl
+    have e3 : s3 = newtonStep p s2 := rfl
+    have e4 : s4 = newtonStep p s3 := rfl
+    rw [e4, e3, e2, e1]
+
+theorem horner_eq (p : T4 K K K K) (t : K) : ((p.t0 * t + p.t1) * t + p.t2) * t + p.t3 = polyEval p t := by
+  simp only [polyEval]; ring
+
+theorem newtonStep_no_worse (p : T4 K K K K) (t : K) : |polyEval p (newtonStep p t)| ≤ |polyEval p t| := by
+  simp only [newtonStep, ← horner_eq]
+  split_ifs with h
+  · exact le_of_lt (of_decide_eq_true h)
+  · exact le_refl _
+
+theorem newtonStep_of_root (p : T4 K K K K) (t : K) (h : polyEval p t = 0) : newtonStep p t = t := by
+  rw [← horner_eq] at h
+  simp only [newtonStep, h, abs_zero]
+  rw [if_neg]
+  simp only [decide_eq_true_eq]
+  exact not_lt.2 (abs_nonneg _)
+
+/-- refining never makes a root worse … -/
+theorem polish_no_worse (p : T4 K K K K) (t : K) : |polyEval p (polish_root p t)| ≤ |polyEval p t| := by
+  rw [polish_unfold]
+  split_ifs
+  · exact le_refl _
+  · exact le_trans (newtonStep_no_worse p _) (le_trans (newtonStep_no_worse p _)
+      (le_trans (newtonStep_no_worse p _) (newtonStep_no_worse p _)))
+
+/-- … and leaves an exact root where it is -/
+theorem polish_of_root (p : T4 K K K K) (t : K) (h : polyEval p t = 0) : polish_root p t = t := by
+  rw [polish_unfold]
+  split_ifs
+  · rfl
+  · rw [newtonStep_of_root p t h, newtonStep_of_root p t h, newtonStep_of_root p t h, newtonStep_of_root p t h]
+
 /-- what the loop body does with one root -/
 def hitOf (w1 w2 w3 w4 : V2 K) (l : T2 (V2 K) (V2 K)) (r : K) : Option (T3 K K (V2 K)) :=
-  let t := snap w1 w4 l r
+  let t := snap w1 w4 l (polish_root (distPoly w1 w2 w3 w4 l) r)
   if 0 ≤ t ∧ t ≤ 1 then some (T3.mk t (sOf l (de_casteljau4 t w1 w2 w3 w4)) (de_casteljau4 t w1 w2 w3 w4)) else none
 
 private theorem foldl_toList {α β : Type} (g : α → Option β) (l : List α) (init : List β) :
@@ -334,7 +393,7 @@ theorem cir_unfold (solve : T4 K K K K → List K) (w1 w2 w3 w4 : V2 K) (l : T2 
     rw [← List.nil_append (List.filterMap _ _), ← foldl_toList]
     congr 1
     funext st r
-    simp only [hitOf, snap, sOf, lineA, lineB, lineC, fabs, Bool.and_eq_true, decide_eq_true_eq, gt_iff_lt]
+    simp only [hitOf, snap, sOf, distPoly, lineA, lineB, lineC, fabs, Bool.and_eq_true, decide_eq_true_eq, gt_iff_lt]
     exact ite_append _ _ _
 
 /-- `curve_intersects_line` returns exactly the hits of `curve_intersects_ray` with `0 ≤ s ≤ 1` -/
@@ -363,7 +422,7 @@ theorem snap_cases (w1 w4 : V2 K) (l : T2 (V2 K) (V2 K)) (r : K) :
 theorem hit_sound (solve : T4 K K K K → List K) (w1 w2 w3 w4 : V2 K) (l : T2 (V2 K) (V2 K))
     (h : T3 K K (V2 K)) (hh : h ∈ curve_intersects_ray solve w1 w2 w3 w4 l) :
     (lineA l ≠ 0 ∨ lineB l ≠ 0) ∧
-    ∃ r ∈ solve (distPoly w1 w2 w3 w4 l), h.t0 = snap w1 w4 l r ∧ 0 ≤ h.t0 ∧ h.t0 ≤ 1 ∧
+    ∃ r ∈ solve (distPoly w1 w2 w3 w4 l), h.t0 = snap w1 w4 l (polish_root (distPoly w1 w2 w3 w4 l) r) ∧ 0 ≤ h.t0 ∧ h.t0 ≤ 1 ∧
       h.t2 = de_casteljau4 h.t0 w1 w2 w3 w4 ∧ h.t1 = sOf l h.t2 ∧
       (polyEval (distPoly w1 w2 w3 w4 l) h.t0 = 0 → h.t2 = along l h.t1) := by
   rw [cir_unfold] at hh
@@ -371,7 +430,7 @@ theorem hit_sound (solve : T4 K K K K → List K) (w1 w2 w3 w4 : V2 K) (l : T2 (
   · exact absurd hh (by simp)
   · rename_i hdeg
     have hne : lineA l ≠ 0 ∨ lineB l ≠ 0 := by
-      by_contra hc; push_neg at hc; exact hdeg hc
+      by_contra hc; push Not at hc; exact hdeg hc
     refine ⟨hne, ?_⟩
     rw [List.mem_filterMap] at hh
     obtain ⟨r, hr, hhit⟩ := hh
@@ -384,7 +443,7 @@ theorem hit_sound (solve : T4 K K K K → List K) (w1 w2 w3 w4 : V2 K) (l : T2 (
       intro hroot
       simp only at hroot ⊢
       rw [poly_is_signed_distance] at hroot
-      set q := de_casteljau4 (snap w1 w4 l r) w1 w2 w3 w4 with hq
+      set q := de_casteljau4 (snap w1 w4 l (polish_root (distPoly w1 w2 w3 w4 l) r)) w1 w2 w3 w4 with hq
       -- the position is on the line; `sOf` recovers its parameter
       have hA : lineA l = l.t1.y - l.t0.y := rfl
       have hB : lineB l = l.t0.x - l.t1.x := rfl
@@ -433,21 +492,27 @@ theorem hit_complete (solve : T4 K K K K → List K) (w1 w2 w3 w4 : V2 K) (l : T
   refine ⟨T3.mk t (sOf l (de_casteljau4 t w1 w2 w3 w4)) (de_casteljau4 t w1 w2 w3 w4), ?_, rfl, rfl⟩
   rw [List.mem_filterMap]
   refine ⟨t, hsolve t hroot, ?_⟩
-  simp only [hitOf, hsnap, ht0, ht1, and_self, if_true]
+  simp only [hitOf, polish_of_root _ t hroot, hsnap, ht0, ht1, and_self, if_true]
 
-/-- the solver dispatch: a genuine cubic goes to the cubic solver, a genuine quadratic (leading coefficient
-    exactly 0) to the quadratic solver, the all-zero polynomial (curve on the line) reports the two ends.
-    For `0 < |p₀| < 1e-8` the code drops the cubic term: an approximation no exact theorem covers. -/
+/-- the cubic term is treated as negligible (curve_line.rs: absolute and relative test) -/
+def negligibleLead (p : T4 K K K K) : Prop :=
+  |p.t0| < 0.00000001 ∨ |p.t0| < fmax (fmax |p.t1| |p.t2|) |p.t3| * 0.00001
+
+/-- the solver dispatch: a polynomial whose leading coefficient is not negligible goes to the cubic solver, a
+    genuine quadratic (leading coefficient exactly 0) to the quadratic solver, the all-zero polynomial (curve
+    on the line) reports the two ends.  For a small but non-zero leading coefficient the code drops the cubic
+    term and refines the quadratic's roots with `polish_root`: an approximation no exact theorem covers. -/
 theorem solve_roots_dispatch (fq : K → K → K → List K) (fc : K → K → K → K → List K) (p : T4 K K K K) :
-    (|p.t0| ≥ 0.00000001 → solve_roots fq fc p = fc p.t0 p.t1 p.t2 p.t3) ∧
+    (¬ negligibleLead p → solve_roots fq fc p = fc p.t0 p.t1 p.t2 p.t3) ∧
     (p.t0 = 0 → (|p.t1| ≥ 0.00000001 ∨ |p.t2| ≥ 0.00000001 ∨ |p.t3| ≥ 0.00000001) → solve_roots fq fc p = fq p.t1 p.t2 p.t3) ∧
     (p.t0 = 0 → p.t1 = 0 → p.t2 = 0 → p.t3 = 0 → solve_roots fq fc p = [0, 1]) := by
   have hpos : (0 : K) < 0.00000001 := by norm_num
   refine ⟨?_, ?_, ?_⟩
   · intro h
-    simp only [solve_roots, fabs, not_lt.2 h, decide_false, Bool.false_eq_true, if_false]
+    simp only [negligibleLead, not_or] at h
+    simp only [solve_roots, fabs, h.1, h.2, decide_false, Bool.or_self, Bool.false_eq_true, if_false]
   · intro h0 h
-    simp only [solve_roots, fabs, h0, abs_zero, hpos, decide_true, if_true]
+    simp only [solve_roots, fabs, h0, abs_zero, hpos, decide_true, Bool.true_or, if_true]
     rcases h with h | h | h
     · simp only [not_lt.2 h, decide_false, Bool.false_eq_true, if_false]
     · split_ifs with h1 h2
@@ -461,7 +526,7 @@ theorem solve_roots_dispatch (fq : K → K → K → List K) (fc : K → K → K
       · rfl
       · rfl
   · intro h0 h1 h2 h3
-    simp only [solve_roots, fabs, h0, h1, h2, h3, abs_zero, hpos, decide_true, Bool.and_self, if_true]
+    simp only [solve_roots, fabs, h0, h1, h2, h3, abs_zero, hpos, decide_true, Bool.true_or, Bool.and_self, if_true]
     norm_num
 
 end CurveLine
